@@ -85,8 +85,8 @@ func GenerateIndexing(t *rapid.T, kind string, use func(string) bool) *Program {
 	}
 	// index variables of different binding kinds
 	f.Body = append(f.Body, &Let{Name: "ci", T: i32, Init: &Lit{T: i32, I: big.NewInt(idxLit("ci"))}, Const: true})
-	f.Body = append(f.Body, &Let{Name: "fi", T: i32, Init: &Lit{T: i32, I: big.NewInt(idxLit("fi"))}})         // never reassigned
-	f.Body = append(f.Body, &Let{Name: "vi", T: i32, Init: &Lit{T: i32, I: big.NewInt(idxLit("vi"))}})         // reassigned
+	f.Body = append(f.Body, &Let{Name: "fi", T: i32, Init: &Lit{T: i32, I: big.NewInt(idxLit("fi"))}}) // never reassigned
+	f.Body = append(f.Body, &Let{Name: "vi", T: i32, Init: &Lit{T: i32, I: big.NewInt(idxLit("vi"))}}) // reassigned
 	f.Body = append(f.Body, &Let{Name: "flag", T: TBool, Init: &Bin{T: TBool, Op: ">", L: &Var{T: IntT(64, true), Name: "canary1"}, R: &Lit{T: IntT(64, true), I: big.NewInt(int64(g.intRange(0, 1, "flagv")) * 2000000000)}}})
 	arrVar := func() Expr { return &Var{T: at, Name: arr} }
 	idxExpr := func(label string) Expr {
